@@ -70,6 +70,23 @@ CHECKS = {
              "Trusted: TLC, the harness' term -> Ty construction.",
         technique="TLA+ law checking (TLC) over the exhaustively recorded relation table",
         ref="DESIGN.md section 4 C13"),
+    "C17": dict(
+        engine="Ty/Layout",
+        category="model_checking",
+        text="TLC generates the type universe of Layout.tla; the harness asks the code generator's "
+             "own layout queries (codegen::verif_api::layouts -> calc_layouts, size/align/stride, "
+             "struct offsets, tag offset) for every type and its direct components at pointer "
+             "width 64 and 32; TLC validates every record against the representation rules "
+             "(Rules: power-of-two alignment <= 8, ordered, aligned, disjoint struct fields inside "
+             "the size, array = len x stride, distinct/variant = underlying, optional of pointer "
+             "= pointer size and no tag, every other optional / error union / enum keeps a "
+             "one-byte tag after the largest payload), against the System V C layout for structs "
+             "of scalars (the spec's C operator is itself validated against gcc's offsetof), and "
+             "against a transcription of layout.rs (drift). Completeness term by term.",
+        note="quick: 905 types x 2 pointer widths, thorough: 2291 x 2. Hook: codegen::verif_api "
+             "(cfg capy_verif). Trusted: TLC, the harness' term -> Ty construction, gcc.",
+        technique="TLA+ trace validation of the exhaustively recorded layout table (TLC)",
+        ref="DESIGN.md section 4 C17"),
     "C22": dict(
         engine="Lexer",
         category="model_checking",
@@ -125,6 +142,22 @@ CHECKS = {
              "(dependencies only on not-yet-completed items) as stated in the property.",
         technique="TLA+ refinement (TLC) + spec-to-implementation trace replay",
         ref="DESIGN.md section 4 C26"),
+    "C27": dict(
+        engine="Mangle",
+        category="model_checking",
+        text="Mangle.tla models file-name components, entity kinds and the mangling scheme as coded "
+             "(get_components incl. the src skip, the digit-leading rule, '.'->'-'), with the three "
+             "wrong behaviours as named deviations: TLC shows the repaired scheme injective on the "
+             "descriptor universe and lists the collisions of the scheme as coded. The harness "
+             "mangles all 15 424 descriptors with codegen's own Mangle implementations; TLC checks "
+             "injectivity of the recorded symbols, that none is `main` or an internal name, and "
+             "equality with the model (drift). A collision the as-coded model predicts is a "
+             "recorded known finding; any other is a violation.",
+        note="Hook: codegen::verif_api (cfg capy_verif). Paths are descriptors (no files are "
+             "created). Known findings F27a/b/c. Trusted: TLC, the harness' descriptor -> "
+             "location construction.",
+        technique="TLA+ model checking of the scheme + trace validation of recorded symbols (TLC)",
+        ref="DESIGN.md section 4 C27"),
 }
 
 PLANNED = {}
@@ -183,7 +216,7 @@ def main():
     print("MANIFEST.json: %d checks, %d not_applicable" % (len(checks), len(na)))
 
 
-HOOK_COMMITS = []
+HOOK_COMMITS = ["d66e8a5"]
 
 if __name__ == "__main__":
     main()
